@@ -22,8 +22,11 @@ ASSUMPTIONS = [
     'A-env-model: the abstract Env methods of contracts/sched_world.py::EnvModel (get_status inserts WAITING on a missing entry, set_status, '
     'is_*/set_* accessors, clocks, atomically) are ASSUMED contracts of valjean/cosette/env.py, exercised by the bounded unit env_conformance and '
     'by the structural lock obligations; they are not proved from the Env source',
-    'A-task-readonly: Task.do does not write the environment it is handed and returns or raises; A-update: the update it returns does not '
-    "contain 'status' / 'start_clock' / 'end_clock' keys of any task and does not replace the entry of ANOTHER task by a non-dictionary",
+    'A-task-readonly: Task.do does not write the environment it is handed and returns or raises (any BaseException, SystemExit included); '
+    "A-update: the update it returns does not contain 'status' / 'start_clock' / 'end_clock' keys of any task, does not create the entry of "
+    'ANOTHER task and does not replace the entry of ANOTHER task by something that is not a dictionary (its OWN entry may be anything: a dictionary, '
+    'a read-only mapping, a number)',
+    'A-thread-start: threading.Thread.start() does not fail (no exhaustion of threads: C03 does not quantify over resource faults)',
     'A-unique-names: distinct tasks of a scheduled graph have distinct names (check_unique_task_names, C15)',
     'A-toposort: DepGraph.topological_sort returns every node once, dependencies first, or raises DepGraphError (real body: bounded part of C16); '
     'Scheduler.__init__ hands over hard_graph <= full_graph over the same nodes',
@@ -200,6 +203,8 @@ def unit_worker(tier, pid):
         probe = None
         if o == 'RAISES':
             probe = 'raise'
+        elif o == 'EXITS':
+            probe = 'sysexit'
         elif o == 'NONE':
             probe = 'none'
         elif o == 'NOT_A_PAIR':
@@ -210,6 +215,8 @@ def unit_worker(tier, pid):
                 probe = 'badupdate'
             elif uk == 'CORRUPTING' and ('DONE' in rs or 'FAILED' in rs):
                 probe = 'corrupt'
+            elif uk == 'READONLY' and ('DONE' in rs or 'FAILED' in rs):
+                probe = 'readonly'
             elif rs == 'none':
                 probe = 'badstatus'
             elif 'DONE' in rs:
